@@ -231,7 +231,7 @@ func scenario(in input) *engine.Scenario {
 		udpx.Run(cfg, in.Ops, tr)
 	}
 	sc.Check = func(x *vrt.Exec) (string, bool, []*engine.Finding) {
-		fs := hk.Generic(x, hk.Opts{Leaks: true})
+		fs := hk.Generic(x, hk.Opts{})
 		if len(fs) > 0 {
 			return "generic", true, fs
 		}
